@@ -27,13 +27,18 @@ def _stored_late(case):
     return case.get('stream') == 'stored' and case.get('late_build')
 
 
+@known_predicate('C01-stored-partial')
+def _stored_partial(case):
+    return case.get('stream') == 'stored_partial'
+
+
 @known_predicate('C01-blank-formula-result')
 def _blank_result(case):
     return case.get('stream') == 'blankres'
 
 
 STREAMS = ['clean', 'clean', 'clean', 'clean', 'clean', 'loaded', 'stored_clean', 'stored',
-           'none', 'eqtype', 'blankres']
+           'none', 'eqtype', 'blankres', 'stored_partial']
 
 
 def fresh_value(wb, inputs, idx):
@@ -56,14 +61,19 @@ def trim(v):
 def make_compiler(ctx, wb, stream, k):
     """Returns (compiler, model prefix ops, stored dict)."""
     from pycel import ExcelCompiler
-    if stream in ('stored', 'stored_clean'):
+    if stream in ('stored', 'stored_clean', 'stored_partial'):
         ref = ExcelCompiler(excel=wb.to_openpyxl())
         results = {i: ref.evaluate(wb.nodes[i]['addr']) for i in wb.formulas()}
+        if stream == 'stored_partial':
+            # a file in which some formula cells have no cached result while their dependants do
+            for i in wb.formulas():
+                if any(i in wb.nodes[d]['deps'] for d in wb.formulas()) and ctx.rng.random() < 0.6:
+                    results[i] = None
         path = os.path.join(ctx.work, f'wb{k}.xlsx')
         wbgen.write_xlsx_with_results(wb, results, path)
         comp = ExcelCompiler(filename=path)
         prefix = []
-        if stream == 'stored_clean':
+        if stream in ('stored_clean', 'stored_partial'):
             # every cell is in the model before the first write
             for i in range(len(wb.nodes)):
                 comp.evaluate(wb.nodes[i]['addr'])
